@@ -18,6 +18,15 @@ type Writer struct {
 // NewWriter makes a new Writer and immediately writes the given Header
 // to begin the file.
 func NewWriter(w io.Writer, hdr Header) (*Writer, error) {
+	if hdr.Source.To4() == nil {
+		return nil, errUnrepresentable
+	}
+
+	hData, err := hdr.Marshal()
+	if err != nil {
+		return nil, err
+	}
+
 	preamble := fmt.Sprintf(
 		"#!rtpplay1.0 %s/%d\n",
 		hdr.Source.To4().String(),
@@ -26,10 +35,6 @@ func NewWriter(w io.Writer, hdr Header) (*Writer, error) {
 		return nil, err
 	}
 
-	hData, err := hdr.Marshal()
-	if err != nil {
-		return nil, err
-	}
 	if _, err := w.Write(hData); err != nil {
 		return nil, err
 	}
